@@ -41,6 +41,8 @@ structure Sem (E V T : Type) where
   isNone : T → Bool                  -- `tree === undefined`
   keyMarks : String → T → Bool       -- does this subtree mark the key field (any subtree does for `*this`)
   anyMarked : String → T → Bool      -- is some child of the list's tree `true` or marking the key field
+  -- the binding map
+  reads : E → String → Bool          -- does the expression read this top-level data field
 
 mutual
 inductive Tpl (E : Type) where
@@ -206,6 +208,61 @@ def updateBr (s : Sem E V T) (now : Nat) (D : V) (sc : List V) (U : T) (su : Lis
   | .cons _ body r, k, i, och =>
     if k == i then updateL s now D sc U su body och else updateBr s now D sc U su r k (i + 1) och
 end
+
+/-! ### the binding-map fast path (`ProcGenWrapper.bindingMapUpdate`): the updaters of one top-level data field
+
+The generated code registers, for every text and attribute binding in the static part of the template (not inside a `wx:if` / `wx:for`
+subtree), an updater under each data field the binding reads; running the updaters of `f` rewrites exactly those bindings. -/
+
+def bmAttrs (s : Sem E V T) (D : V) (sc : List V) (f : String) : List (String × E) → List (String × V) → List (String × V)
+  | [], _ => []
+  | _ :: _, [] => []
+  | a :: r, o :: r' => (o.1, if s.reads a.2 f then s.eval a.2 D sc else o.2) :: bmAttrs s D sc f r r'
+
+mutual
+def bmUpdate (s : Sem E V T) (D : V) (sc : List V) (f : String) : Tpl E → Node V → Node V
+  | .text e, .text b old => .text b (if s.reads e f then s.str (s.eval e D sc) else old)
+  | .elem _ attrs ch, .elem b tag old och => .elem b tag (bmAttrs s D sc f attrs old) (bmUpdateL s D sc f ch och)
+  | .block ch, .virt b och => .virt b (bmUpdateL s D sc f ch och)
+  | _, n => n
+def bmUpdateL (s : Sem E V T) (D : V) (sc : List V) (f : String) : Tpls E → Nodes V → Nodes V
+  | .cons t r, .cons n ns => .cons (bmUpdate s D sc f t n) (bmUpdateL s D sc f r ns)
+  | _, ns => ns
+end
+
+/-! does any expression of the template read `f` -/
+mutual
+def occurs (s : Sem E V T) (f : String) : Tpl E → Bool
+  | .text e => s.reads e f
+  | .elem _ attrs ch => attrs.any (fun a => s.reads a.2 f) || occursL s f ch
+  | .block ch => occursL s f ch
+  | .cond bs => occursBr s f bs
+  | .loop l body => s.reads l f || occursL s f body
+  | .loopK l _ body => s.reads l f || occursL s f body
+def occursL (s : Sem E V T) (f : String) : Tpls E → Bool
+  | .nil => false
+  | .cons t r => occurs s f t || occursL s f r
+def occursBr (s : Sem E V T) (f : String) : Branches E → Bool
+  | .last _ els => occursL s f els
+  | .cons c body r => s.reads c f || occursL s f body || occursBr s f r
+end
+
+/-! does `f` occur where the binding map cannot reach: in a `wx:if` chain or a `wx:for` (conditions, list expression, bodies) -/
+mutual
+def dynOccurs (s : Sem E V T) (f : String) : Tpl E → Bool
+  | .text _ => false
+  | .elem _ _ ch => dynOccursL s f ch
+  | .block ch => dynOccursL s f ch
+  | .cond bs => occursBr s f bs
+  | .loop l body => s.reads l f || occursL s f body
+  | .loopK l _ body => s.reads l f || occursL s f body
+def dynOccursL (s : Sem E V T) (f : String) : Tpls E → Bool
+  | .nil => false
+  | .cons t r => dynOccurs s f t || dynOccursL s f r
+end
+
+/-- the fields the generated binding map offers: read somewhere, and nowhere out of reach -/
+def advertised (s : Sem E V T) (f : String) (t : Tpl E) : Bool := occurs s f t && !dynOccurs s f t
 
 /-! ### "this node tree is a rendering of the template under these data" (whenever its nodes were born) -/
 
